@@ -267,7 +267,7 @@ theorem kkey_of_unsorted (S : Schema) (x : DNode) (hp : plainSid S x.sid = true)
   | none => simp
   | some n =>
     simp only [hg, Bool.and_eq_true, Bool.not_eq_true', Bool.or_eq_true, Bool.or_eq_false_iff, beq_iff_eq,
-      Bool.and_eq_false_imp, bne_iff_ne] at hp hso
+      Bool.and_eq_false_imp] at hp hso
     simp only [Option.map_some]
     by_cases hll : n.kind = .leaflist
     · exfalso
